@@ -3,6 +3,7 @@
    objects; concrete printers). Statements are fixed. *)
 From QV Require Import Base.Bytes File.StrictSyntax File.ReadStrict Obj.Queue Obj.C01QueueProofs Obj.WriterModel
   Obj.WmPrinters Obj.C01WriterProofs Obj.C01RoundtripProofs.
+From QV Require Import File.C02Proofs.
 From Coq Require Import Lia.
 Local Open Scope N_scope.
 
@@ -13,6 +14,220 @@ Definition wf_doc_objs (d : doc) : Prop :=
 Definition doc_ren (d : doc) (x : N) : N :=
   match renumber (graph_of d) (roots_of d) x with Some n => n | None => 0 end.
 
+(* ---------- a structural induction principle for the nested type obj ---------- *)
+Section ObjInd.
+  Variable Pp : obj -> Prop.
+  Hypothesis H_null : Pp ONull.
+  Hypothesis H_bool : forall b, Pp (OBool b).
+  Hypothesis H_int : forall z, Pp (OInt z).
+  Hypothesis H_real : forall s, Pp (OReal s).
+  Hypothesis H_str : forall s, Pp (OStr s).
+  Hypothesis H_name : forall n, Pp (OName n).
+  Hypothesis H_ref : forall id, Pp (ORef id).
+  Hypothesis H_arr : forall l, Forall Pp l -> Pp (OArr l).
+  Hypothesis H_dict : forall d, Forall (fun kv => Pp (snd kv)) d -> Pp (ODict d).
+  Fixpoint obj_ind' (o : obj) : Pp o :=
+    match o with
+    | ONull => H_null
+    | OBool b => H_bool b
+    | OInt z => H_int z
+    | OReal s => H_real s
+    | OStr s => H_str s
+    | OName n => H_name n
+    | ORef id => H_ref id
+    | OArr l => H_arr l ((fix go (l : list obj) : Forall Pp l :=
+                            match l with
+                            | [] => Forall_nil _
+                            | x :: t => Forall_cons x (obj_ind' x) (go t)
+                            end) l)
+    | ODict d => H_dict d ((fix go (l : list (list N * obj)) : Forall (fun kv => Pp (snd kv)) l :=
+                              match l with
+                              | [] => Forall_nil _
+                              | kv :: t => Forall_cons kv (obj_ind' (snd kv)) (go t)
+                              end) d)
+    end.
+End ObjInd.
+
+(* ---------- printing and reading depend on the renumbering only at the printed references ---------- *)
+Lemma ren_ext : forall us un objs r1 r2 o,
+  (forall x, In x (refs_of objs o) -> r1 x = r2 x) ->
+  unparse us un objs r1 o = unparse us un objs r2 o /\ to_pobj objs r1 o = to_pobj objs r2 o.
+Proof.
+  intros us un objs r1 r2 o. induction o as [|b|z|s|s|n|id|l IHl|d IHd] using obj_ind'; intros Href;
+    try (split; reflexivity).
+  - cbn [unparse to_pobj]. rewrite (Href id) by (left; reflexivity). split; reflexivity.
+  - assert (H : flat_map (fun x => sp ++ unparse us un objs r1 x) l = flat_map (fun x => sp ++ unparse us un objs r2 x) l
+                /\ map (to_pobj objs r1) l = map (to_pobj objs r2) l).
+    { change (refs_of objs (OArr l)) with (flat_map (refs_of objs) l) in Href.
+      induction l as [|x t IHt]; [split; reflexivity|].
+      inversion IHl as [|? ? Hx Ht]; subst.
+      destruct Hx as [Hx1 Hx2].
+      { intros y Hy. apply Href. cbn [flat_map]. apply in_or_app. left. exact Hy. }
+      destruct (IHt Ht) as [Ht1 Ht2].
+      { intros y Hy. apply Href. cbn [flat_map]. apply in_or_app. right. exact Hy. }
+      cbn [flat_map map]. rewrite Hx1, Hx2, Ht1, Ht2. split; reflexivity. }
+    destruct H as [H1 H2].
+    change (unparse us un objs r1 (OArr l)) with ([91] ++ flat_map (fun x => sp ++ unparse us un objs r1 x) l ++ [32; 93]).
+    change (unparse us un objs r2 (OArr l)) with ([91] ++ flat_map (fun x => sp ++ unparse us un objs r2 x) l ++ [32; 93]).
+    change (to_pobj objs r1 (OArr l)) with (SpArr (map (to_pobj objs r1) l)).
+    change (to_pobj objs r2 (OArr l)) with (SpArr (map (to_pobj objs r2) l)).
+    rewrite H1, H2. split; reflexivity.
+  - set (g1 := fun kv : list N * obj => if is_null_val objs (snd kv) then [] else sp ++ un (fst kv) ++ sp ++ unparse us un objs r1 (snd kv)).
+    set (g2 := fun kv : list N * obj => if is_null_val objs (snd kv) then [] else sp ++ un (fst kv) ++ sp ++ unparse us un objs r2 (snd kv)).
+    assert (H : flat_map g1 d = flat_map g2 d /\ pdict objs r1 d = pdict objs r2 d).
+    { change (refs_of objs (ODict d))
+        with (flat_map (fun kv => if is_null_val objs (snd kv) then [] else refs_of objs (snd kv)) d) in Href.
+      induction d as [|kv t IHt]; [split; reflexivity|].
+      inversion IHd as [|? ? Hx Ht]; subst.
+      destruct (IHt Ht) as [Ht1 Ht2].
+      { intros y Hy. apply Href. cbn [flat_map]. apply in_or_app. right. exact Hy. }
+      cbn [flat_map pdict]. unfold g1 at 1, g2 at 1.
+      destruct (is_null_val objs (snd kv)) eqn:E.
+      - rewrite Ht1, Ht2. split; reflexivity.
+      - destruct Hx as [Hx1 Hx2].
+        { intros y Hy. apply Href. cbn [flat_map]. rewrite E. apply in_or_app. left. exact Hy. }
+        rewrite Hx1, Hx2, Ht1, Ht2. split; reflexivity. }
+    destruct H as [H1 H2].
+    change (unparse us un objs r1 (ODict d)) with ([60; 60] ++ flat_map g1 d ++ [32; 62; 62]).
+    change (unparse us un objs r2 (ODict d)) with ([60; 60] ++ flat_map g2 d ++ [32; 62; 62]).
+    change (to_pobj objs r1 (ODict d)) with (SpDict (pdict objs r1 d)).
+    change (to_pobj objs r2 (ODict d)) with (SpDict (pdict objs r2 d)).
+    rewrite H1, H2. split; reflexivity.
+Qed.
+
+(* ---------- the reference graph at a non-stream object ---------- *)
+Lemma find_obj_in : forall l id i, find_obj l id = Some i -> exists k, In (k, i) l.
+Proof.
+  induction l as [|[k v] t IH]; intros id i H; [discriminate H|].
+  cbn [find_obj] in H. destruct (k =? id).
+  - injection H as <-. exists k. left. reflexivity.
+  - destruct (IH _ _ H) as [k' Hk]. exists k'. right. exact Hk.
+Qed.
+
+Lemma children_map : forall (F : N * indirect -> list N) l id i,
+  find_obj l id = Some i ->
+  children (map (fun kv => (fst kv, F kv)) l) id = F (id, i) \/
+  exists k, In (k, i) l /\ k = id /\ children (map (fun kv => (fst kv, F kv)) l) id = F (k, i).
+Proof.
+  induction l as [|[k v] t IH]; intros id i H; [discriminate H|].
+  cbn [find_obj] in H. cbn [map children fst]. destruct (k =? id) eqn:E.
+  - injection H as <-. apply N.eqb_eq in E. subst k. left. reflexivity.
+  - destruct (IH _ _ H) as [Hc | [k' [H1 [H2 H3]]]].
+    + left. exact Hc.
+    + right. exists k'. repeat split; [right; exact H1 | exact H2 | exact H3].
+Qed.
+
+Lemma children_graph_of : forall d id i, find_obj (d_objects d) id = Some i -> i_stream i = None ->
+  children (graph_of d) id = refs_of (d_objects d) (i_val i).
+Proof.
+  intros d id i Hf Hs. unfold graph_of.
+  destruct (children_map (fun kv => refs_of (d_objects d)
+              (match i_stream (snd kv) with Some _ => drop_length (i_val (snd kv)) | None => i_val (snd kv) end))
+              (d_objects d) id i Hf) as [H | [k [_ [_ H]]]];
+    rewrite H; cbn [snd]; rewrite Hs; reflexivity.
+Qed.
+
+(* written objects get positive numbers *)
+Lemma written_ren_pos : forall d x, doc_closed d ->
+  In x (written (graph_of d) (roots_of d)) -> 0 < doc_ren d x.
+Proof.
+  intros d x Hc Hin. pose proof (renumber_order_lemma _ _ Hc) as Ho.
+  assert (H : In (renumber (graph_of d) (roots_of d) x)
+                 (map (renumber (graph_of d) (roots_of d)) (written (graph_of d) (roots_of d))))
+    by (apply in_map; exact Hin).
+  rewrite Ho in H. apply in_map_iff in H. destruct H as [n [Hn Hs]].
+  apply in_seq in Hs. unfold doc_ren. rewrite <- Hn. lia.
+Qed.
+
+Lemma refs_ren_pos : forall d id i y, doc_closed d ->
+  In id (written (graph_of d) (roots_of d)) -> find_obj (d_objects d) id = Some i -> i_stream i = None ->
+  In y (refs_of (d_objects d) (i_val i)) -> 0 < doc_ren d y.
+Proof.
+  intros d id i y Hc Hin Hf Hs Hy. apply written_ren_pos; [exact Hc|].
+  destruct (queue_complete_lemma _ _ Hc) as [_ Hq]. apply Hq.
+  apply (reach_step _ _ id); [apply Hq; exact Hin|].
+  rewrite (children_graph_of d id i Hf Hs). exact Hy.
+Qed.
+
+(* ---------- the output at a recorded offset ---------- *)
+Lemma offs_of_at : forall us un objs ren ids pos pre rest id,
+  N.to_nat pos = length pre -> In id ids ->
+  exists off tail,
+    In (ren id, off) (offs_of us un objs ren ids pos) /\
+    skipn (N.to_nat off) (pre ++ concat (map (chunk_of us un objs ren) ids) ++ rest)
+    = chunk_of us un objs ren id ++ tail.
+Proof.
+  intros us un objs ren. induction ids as [|a tl IH]; intros pos pre rest id Hpos Hin; [destruct Hin|].
+  destruct Hin as [Heq | Hin].
+  - subst a. exists pos. eexists. split; [left; reflexivity|].
+    rewrite Hpos, skipn_app, skipn_all, Nat.sub_diag. cbn [app skipn map concat].
+    rewrite <- app_assoc. reflexivity.
+  - specialize (IH (pos + N.of_nat (length (chunk_of us un objs ren a))) (pre ++ chunk_of us un objs ren a) rest id).
+    destruct IH as [off [tail [H1 H2]]]; [|exact Hin|].
+    + rewrite app_length, N2Nat.inj_add, Nat2N.id. lia.
+    + exists off, tail. split; [right; exact H1|].
+      cbn [map concat]. rewrite <- !app_assoc in *. exact H2.
+Qed.
+
+Lemma write_doc_shape : forall us un d, exists tl,
+  write_doc us un d = header (d_version d)
+    ++ concat (map (chunk_of us un (d_objects d) (doc_ren d)) (written (graph_of d) (roots_of d))) ++ tl.
+Proof.
+  intros us un d. unfold write_doc. rewrite emit_bodies_eq. rewrite !rev'_rev.
+  rewrite !app_nil_r, !rev_involutive. eexists. reflexivity.
+Qed.
+
+(* ---------- the indirect-object parser on an emitted non-stream object ---------- *)
+Lemma next_tok_obj : forall X, next_tok (32 :: 111 :: 98 :: 106 :: 10 :: X) = Some (StKw k_obj, 10 :: X).
+Proof. reflexivity. Qed.
+Lemma next_tok_endobj : forall X,
+  next_tok (10 :: 101 :: 110 :: 100 :: 111 :: 98 :: 106 :: 10 :: X) = Some (StKw k_endobj, 10 :: X).
+Proof. reflexivity. Qed.
+Lemma parse_obj_nl : forall fuel s, parse_obj fuel (10 :: s) = parse_obj fuel s.
+Proof.
+  intros [|f] s; [reflexivity|]. rewrite !parse_obj_S.
+  change (next_tok (10 :: s)) with (next_tok s). reflexivity.
+Qed.
+
+Lemma dec_of_N_head : forall k, exists c t, dec_of_N k = c :: t /\ is_digit c = true.
+Proof.
+  intros k. destruct (dec_of_N_value_lemma k) as [_ [Hd Hl]].
+  destruct (dec_of_N k) as [|c t]; [cbn in Hl; lia|].
+  exists c, t. split; [reflexivity|]. cbn [all_digits] in Hd. apply andb_true_iff in Hd. tauto.
+Qed.
+
+Lemma parse_indirect_emitted : forall fuel total file off k objs ren v tail,
+  at_off file off = obj_header k ++ unparse wm_unparse_string wm_unparse_name objs ren v ++ s_endobj ++ tail ->
+  wf_wobj v -> (forall id, 0 < ren id) ->
+  (length (unparse wm_unparse_string wm_unparse_name objs ren v) < fuel)%nat ->
+  parse_indirect fuel total file off (fun _ => None)
+  = inl (Some {| so_num := k; so_gen := 0; so_where := XInUse off 0;
+                 so_val := to_pobj objs ren v; so_stream := None; so_end := offset_of total tail |}).
+Proof.
+  intros fuel total file off k objs ren v tail Hat Hwf Hren Hfuel.
+  set (U := unparse wm_unparse_string wm_unparse_name objs ren v) in *.
+  set (E := 10 :: 101 :: 110 :: 100 :: 111 :: 98 :: 106 :: 10 :: tail).
+  assert (Hs : at_off file off = dec_of_N k ++ 32 :: 48 :: 32 :: 111 :: 98 :: 106 :: 10 :: U ++ E).
+  { rewrite Hat. unfold obj_header, s_endobj. rewrite <- app_assoc. reflexivity. }
+  assert (Hnt : next_tok (at_off file off) = Some (StInt (Z.of_N k), 32 :: 48 :: 32 :: 111 :: 98 :: 106 :: 10 :: U ++ E)).
+  { rewrite Hs. apply next_tok_dec_of_N. left. reflexivity. }
+  destruct (dec_of_N_head k) as [c [t [Hk Hc]]].
+  assert (Hhd : at_off file off = c :: t ++ 32 :: 48 :: 32 :: 111 :: 98 :: 106 :: 10 :: U ++ E).
+  { rewrite Hs, Hk. reflexivity. }
+  unfold parse_indirect. cbv zeta.
+  rewrite Hhd at 1. cbv iota beta. rewrite Hc. cbn [negb].
+  rewrite Hnt, next_tok_sp0, next_tok_obj.
+  change (negb (beq k_obj k_obj)) with false. cbv iota.
+  rewrite parse_obj_nl. unfold U.
+  rewrite (unparse_parses_wm_lemma objs ren v E fuel Hwf Hren).
+  - unfold E at 1. rewrite next_tok_endobj.
+    change (beq k_endobj k_endobj) with true. cbv iota.
+    change (eol (10 :: tail)) with (Some tail). cbv iota.
+    rewrite N2Z.id. reflexivity.
+  - left. reflexivity.
+  - intros z _. apply (no_ref_follow_endobj tail).
+  - exact Hfuel.
+Qed.
 (* For every written non-stream object: parsing an indirect object at its recorded offset in the output
    yields its new number, generation 0, and the value that was written (references renumbered, null
    entries dropped), and the parse ends where the next thing starts. *)
@@ -27,4 +242,34 @@ Lemma emitted_object_parses_lemma : forall d id i fuel,
     = inl (Some {| so_num := doc_ren d id; so_gen := 0; so_where := XInUse off 0;
                    so_val := to_pobj (d_objects d) (doc_ren d) (i_val i); so_stream := None; so_end := e |})
     /\ off < e.
-Proof. Abort.
+Proof.
+  intros d id i fuel Hc Hwf Hin Hf Hs out Hfuel.
+  destruct (write_doc_shape wm_unparse_string wm_unparse_name d) as [tl Hshape].
+  destruct (offs_of_at wm_unparse_string wm_unparse_name (d_objects d) (doc_ren d)
+              (written (graph_of d) (roots_of d)) (N.of_nat (length (header (d_version d))))
+              (header (d_version d)) tl id (Nat2N.id _) Hin) as [off [tail [Hoff Hskip]]].
+  rewrite <- Hshape in Hskip. fold out in Hskip.
+  set (ren' := fun x => if doc_ren d x =? 0 then 1 else doc_ren d x).
+  assert (Hext : forall x, In x (refs_of (d_objects d) (i_val i)) -> doc_ren d x = ren' x).
+  { intros x Hx. pose proof (refs_ren_pos d id i x Hc Hin Hf Hs Hx) as Hp.
+    unfold ren'. destruct (doc_ren d x =? 0) eqn:E; [apply N.eqb_eq in E; lia | reflexivity]. }
+  destruct (ren_ext wm_unparse_string wm_unparse_name (d_objects d) (doc_ren d) ren' (i_val i) Hext) as [HU HP].
+  assert (Hchunk : chunk_of wm_unparse_string wm_unparse_name (d_objects d) (doc_ren d) id
+                   = obj_header (doc_ren d id)
+                     ++ unparse wm_unparse_string wm_unparse_name (d_objects d) ren' (i_val i) ++ s_endobj).
+  { unfold chunk_of. rewrite Hf. unfold emit_object. rewrite Hs, HU. reflexivity. }
+  assert (Hlen : (length out - N.to_nat off
+                  = length (chunk_of wm_unparse_string wm_unparse_name (d_objects d) (doc_ren d) id) + length tail)%nat).
+  { rewrite <- skipn_length, Hskip, app_length. reflexivity. }
+  pose proof (chunk_of_length_pos wm_unparse_string wm_unparse_name (d_objects d) (doc_ren d) id) as Hpos.
+  exists off, (offset_of (N.of_nat (length out)) tail).
+  split; [rewrite body_offsets_eq; exact Hoff|].
+  split.
+  - rewrite HP. apply parse_indirect_emitted.
+    + unfold at_off. rewrite Hskip, Hchunk, <- !app_assoc. reflexivity.
+    + destruct (find_obj_in _ _ _ Hf) as [k Hk]. unfold wf_doc_objs in Hwf.
+      rewrite Forall_forall in Hwf. apply (Hwf (k, i) Hk).
+    + intros x. unfold ren'. destruct (doc_ren d x =? 0) eqn:E; [lia | apply N.eqb_neq in E; lia].
+    + rewrite Hchunk, !app_length in Hlen. lia.
+  - unfold offset_of. lia.
+Qed.
